@@ -1,4 +1,5 @@
 import KrroodVerif.Lemmas.EqlF1
+import KrroodVerif.Model.EqlQuantFrag
 /-!
 Lemmas for the C01 theorems about QUANTIFIED conditions (`Props/C01Quant.lean`). Core Lean only.
 
@@ -30,12 +31,31 @@ def Expr.fvars : Expr → List VarId
   | .not e => e.fvars
   | .exists_ v e | .forAll v e => e.fvars.filter (· != v)
 
-/-- quantified variables -/
-def Expr.qvars : Expr → List VarId
-  | .and l r | .elseIf l r | .union l r => l.qvars ++ r.qvars
-  | .not e => e.qvars
-  | .exists_ v e | .forAll v e => v :: e.qvars
-  | _ => []
+/-! the copies in `Model/EqlQuantFrag.lean` ARE the definitions of `Lemmas/EqlCover.lean` / `EqlF1.lean` -/
+
+@[simp] theorem Term.noFlatQ_eq (t : Term) : t.noFlatQ = t.noFlat := by
+  induction t <;> simp_all [Term.noFlatQ, Term.noFlat]
+
+@[simp] theorem Term.isChainQ_eq (t : Term) : t.isChainQ = t.isChain := by
+  cases t <;> simp [Term.isChainQ, Term.isChain]
+
+@[simp] theorem Term.noLitQ_eq (t : Term) : t.noLitQ = t.noLit := by
+  induction t <;> simp_all [Term.noLitQ, Term.noLit]
+
+@[simp] theorem Expr.FcQ_eq (e : Expr) : e.FcQ = e.Fc := by
+  induction e <;> simp_all [Expr.FcQ, Expr.Fc]
+
+theorem litIdsQ_eq (ks : List Key) : litIdsQ ks = litIds ks := rfl
+
+theorem nodupNat_iff (l : List Nat) : nodupNat l = true ↔ l.Nodup := by
+  induction l with
+  | nil => simp [nodupNat]
+  | cons x r ih => simp [nodupNat, ih]
+
+theorem nodupVal_iff (l : List Val) : nodupVal l = true ↔ l.Nodup := by
+  induction l with
+  | nil => simp [nodupVal]
+  | cons x r ih => simp [nodupVal, ih]
 
 theorem Expr.fvars_Fc {e : Expr} (h : e.Fc = true) : e.fvars = e.vars := by
   induction e with
@@ -142,21 +162,6 @@ theorem build_fvars (s : SExpr) : (build s).fvars = s.freeVars := by
   | _ => simp only [build, Expr.fvars, SExpr.freeVars]
 
 /-! ## Q2. Keys bound by every result cell of a given truth value -/
-
-/-- keys that every result cell of `e` with truth flag `pol` binds (a syntactic under-approximation): an atom binds
-all its nodes; a false cell of `and l r` is a false cell of `l` passed through UN-EXTENDED or a false cell of `r`
-extending a true cell of `l`; … -/
-def Expr.bK : Bool → Expr → List Key
-  | _, .cmp _ l r => l.nodes ++ r.nodes
-  | _, .contains c i => c.nodes ++ i.nodes
-  | _, .truth t => t.nodes
-  | _, .hasType t _ => t.nodes
-  | true, .and l r => Expr.bK true l ++ Expr.bK true r
-  | false, .and l r => (Expr.bK false l).filter fun k => (Expr.bK true l ++ Expr.bK false r).contains k
-  | true, .elseIf l r => (Expr.bK true l).filter fun k => (Expr.bK false l ++ Expr.bK true r).contains k
-  | false, .elseIf l r => Expr.bK false l ++ Expr.bK false r
-  | pol, .not e => Expr.bK (!pol) e
-  | _, _ => []
 
 theorem bK_sound (w : World) (e : Expr) : e.Fc = true → ∀ env rs, eval w e env = .ok rs → ∀ p ∈ rs, ∀ pol, p.2 = pol →
     ∀ k ∈ Expr.bK pol e, (p.1.lookup k).isSome = true := by
@@ -1150,25 +1155,11 @@ theorem forAll_qinv (w : World) (hnd : ∀ v, (w.dom v).Nodup) (q : VarId) (φ :
 
 /-! ## Q7. The chain `and l₁ (and l₂ (… Q))` -/
 
-/-- **the quantifier fragment** (`A`: variables that MAY be bound when `e` is reached; `B`: keys that ARE bound then):
-a chain of `and`s whose left operands are in the cover fragment and whose last operand is ONE quantifier over a
-condition `φ` in the cover fragment, such that the quantified variable is not used outside the quantifier, and
-
-* `exists_ q φ`: every result cell of `φ` — true or false — binds `q` (negation of the trigger of F-C01-7), and every
-  other variable of `φ` is bound before the quantifier is reached (negation of the trigger of F-C01-5);
-* `forAll q φ`: every TRUE result cell of `φ` binds every node of `φ` (negation of the trigger of F-C01-11). -/
-def Expr.Ql : Expr → List VarId → List Key → Bool
-  | .and l e', A, B => l.Fc && Expr.Ql e' (A ++ l.vars) (B ++ Expr.bK true l)
-  | .exists_ q φ, A, B => φ.Fc && !A.contains q && (Expr.bK true φ).contains (.var q) &&
-      (Expr.bK false φ).contains (.var q) && φ.vars.all fun v => v == q || B.contains (.var v)
-  | .forAll q φ, A, _ => φ.Fc && !A.contains q && φ.nodes.all fun k => (Expr.bK true φ).contains k
-  | _, _, _ => false
-
 theorem ql_qvars (e : Expr) : ∀ A B, e.Ql A B = true → ∀ v ∈ e.qvars, v ∉ A ∧ v ∉ e.fvars := by
   induction e with
   | and l e' _ ih =>
     intro A B h v hv
-    simp only [Expr.Ql, Bool.and_eq_true] at h
+    simp only [Expr.Ql, Expr.FcQ_eq, Bool.and_eq_true] at h
     simp only [Expr.qvars, Expr.qvars_Fc h.1, List.nil_append] at hv
     obtain ⟨h1, h2⟩ := ih _ _ h.2 v hv
     simp only [List.mem_append, not_or] at h1
@@ -1176,13 +1167,13 @@ theorem ql_qvars (e : Expr) : ∀ A B, e.Ql A B = true → ∀ v ∈ e.qvars, v 
     exact ⟨h1.1, h1.2, h2⟩
   | exists_ q φ _ =>
     intro A B h v hv
-    simp only [Expr.Ql, Bool.and_eq_true, Bool.not_eq_true'] at h
+    simp only [Expr.Ql, Expr.FcQ_eq, Bool.and_eq_true, Bool.not_eq_true'] at h
     simp only [Expr.qvars, Expr.qvars_Fc h.1.1.1.1, List.mem_singleton] at hv
     subst hv
     exact ⟨by simpa using h.1.1.1.2, by simp [Expr.fvars]⟩
   | forAll q φ _ =>
     intro A B h v hv
-    simp only [Expr.Ql, Bool.and_eq_true, Bool.not_eq_true'] at h
+    simp only [Expr.Ql, Expr.FcQ_eq, Bool.and_eq_true, Bool.not_eq_true'] at h
     simp only [Expr.qvars, Expr.qvars_Fc h.1.1, List.mem_singleton] at hv
     subst hv
     exact ⟨by simpa using h.1.2, by simp [Expr.fvars]⟩
@@ -1199,7 +1190,7 @@ theorem ql_qinv (w : World) (hnd : ∀ v, (w.dom v).Nodup) (e : Expr) : ∀ A B,
   induction e with
   | and l e' _ ih =>
     intro A B hQ hln env rs hk hB hA hlf h
-    simp only [Expr.Ql, Bool.and_eq_true] at hQ
+    simp only [Expr.Ql, Expr.FcQ_eq, Bool.and_eq_true] at hQ
     obtain ⟨hFl, hQ'⟩ := hQ
     obtain ⟨ls, g, h0, rfl, hg⟩ := eval_and_inv h
     obtain ⟨hnl, hnr, hd⟩ := litNodup_append hln
@@ -1289,7 +1280,7 @@ theorem ql_qinv (w : World) (hnd : ∀ v, (w.dom v).Nodup) (e : Expr) : ∀ A B,
       exact List.mem_append_right _ (hρ b hb)
   | exists_ q φ _ =>
     intro A B hQ hln env rs hk hB hA hlf h
-    simp only [Expr.Ql, Bool.and_eq_true, Bool.not_eq_true', List.contains_iff_mem,
+    simp only [Expr.Ql, Expr.FcQ_eq, Bool.and_eq_true, Bool.not_eq_true', List.contains_iff_mem,
       List.all_eq_true, Bool.or_eq_true, beq_iff_eq] at hQ
     obtain ⟨⟨⟨⟨hF, hqA⟩, hb1⟩, hb2⟩, hvars⟩ := hQ
     have hq : env.lookup (.var q) = none := by
@@ -1300,7 +1291,7 @@ theorem ql_qinv (w : World) (hnd : ∀ v, (w.dom v).Nodup) (e : Expr) : ∀ A B,
       (hlf.mono fun k hk => List.mem_cons_of_mem _ hk) h
   | forAll q φ _ =>
     intro A B hQ hln env rs hk hB hA hlf h
-    simp only [Expr.Ql, Bool.and_eq_true, Bool.not_eq_true', List.contains_iff_mem,
+    simp only [Expr.Ql, Expr.FcQ_eq, Bool.and_eq_true, Bool.not_eq_true', List.contains_iff_mem,
       List.all_eq_true] at hQ
     obtain ⟨⟨hF, hqA⟩, hall⟩ := hQ
     have hq : env.lookup (.var q) = none := by
